@@ -272,12 +272,12 @@ Proof.
 Qed.
 
 (* every state the object API reaches is well formed *)
-Theorem wf_assign_thm cplx nfft (v : list F) : (1 <= nfft)%nat -> (1 <= length v)%nat ->
-  (cplx = false -> length v = flen One nfft) -> wf_state (assign_psd cplx nfft v).
+Theorem wf_assign_thm cplx nfft (v : list F) : (1 <= length v)%nat ->
+  (cplx = false -> (1 <= nfft)%nat /\ length v = flen One nfft) -> wf_state (assign_psd cplx nfft v).
 Proof.
-  intros Hn Hv Hl. unfold assign_psd, wf_state. destruct cplx; cbn [st_cplx st_nfft st_sides st_psd].
+  intros Hv Hl. unfold assign_psd, wf_state. destruct cplx; cbn [st_cplx st_nfft st_sides st_psd].
   - split; [exact Hv|]. split; [reflexivity|discriminate].
-  - split; [exact Hn|]. split; [apply Hl; reflexivity|exact I].
+  - destruct (Hl eq_refl) as [Hn Hlen]. split; [exact Hn|]. split; [exact Hlen|exact I].
 Qed.
 Theorem wf_run_thm (path : list side) (st st' : pstate) :
   wf_state st -> run_path path st = Some st' -> wf_state st'.
@@ -292,5 +292,56 @@ Proof.
     + destruct (c && side_eqb t One)%bool eqn:Ec; [discriminate|]. injection E as <-.
       unfold wf_state; cbn [st_cplx st_nfft st_sides st_psd]. apply wf_conv; [exact Hwf|].
       intros -> ->. discriminate.
+Qed.
+(* the same statement in the fold form fixed in DESIGN.md appendix C *)
+Theorem path_fold_thm cplx nfft (path : list side) : forall s0 (p0 : list F),
+  wf cplx nfft s0 p0 -> allowed cplx path ->
+  fold_left (fun st t => (t, conv nfft (fst st) t (snd st))) path (s0, p0)
+  = (last path s0, conv nfft s0 (last path s0) p0).
+Proof.
+  induction path as [|t r IH]; intros s0 p0 Hwf Hal.
+  - cbn [fold_left last]. destruct s0; reflexivity.
+  - assert (Ht : cplx = true -> t <> One).
+    { intros Hc E. apply (Hal Hc). left. exact E. }
+    assert (Hr : allowed cplx r).
+    { intros Hc Hin. apply (Hal Hc). right. exact Hin. }
+    cbn [fold_left fst snd]. rewrite IH; [|apply wf_conv; assumption|exact Hr].
+    rewrite last_cons. f_equal.
+    destruct Hwf as (Hn & Hp & Hk).
+    apply conv_compose_thm; try assumption.
+    intros ->. destruct cplx; [exfalso; apply Ht; reflexivity|exact Hk].
+Qed.
+
+(* real data, as the object API builds it: p.psd = v (one-sided), then any sequence of sides *)
+Theorem path_real_thm nfft (v : list F) (path : list side) :
+  (1 <= nfft)%nat -> length v = flen One nfft ->
+  run_path path (assign_psd false nfft v)
+  = Some (mkP false nfft (last path One) (conv nfft One (last path One) v)).
+Proof.
+  intros Hn Hv.
+  assert (Hv1 : (1 <= length v)%nat) by (rewrite Hv, flen_one; lia).
+  rewrite path_independent_thm.
+  - reflexivity.
+  - apply wf_assign_thm; auto.
+  - unfold allowed, assign_psd; cbn [st_cplx]. intros Hc. discriminate.
+Qed.
+(* complex data: p.psd = v (two-sided, any values), then any sequence over twosided/centerdc *)
+Theorem path_complex_thm nfft0 (v : list F) (path : list side) :
+  (1 <= length v)%nat -> ~ In One path ->
+  run_path path (assign_psd true nfft0 v)
+  = Some (mkP true (length v) (last path Two) (conv (length v) Two (last path Two) v)).
+Proof.
+  intros Hv Hp.
+  rewrite path_independent_thm.
+  - reflexivity.
+  - apply wf_assign_thm; [exact Hv|discriminate].
+  - intros _. exact Hp.
+Qed.
+(* and asking complex data for onesided raises, leaving the object as it was *)
+Theorem complex_onesided_raises_thm (st : pstate) : wf_state st -> st_cplx st = true ->
+  set_sides st One = None /\ query st One = None.
+Proof.
+  intros (Hn & Hp & Hk) Hc. destruct st as [c n s p]; cbn [st_cplx st_nfft st_sides st_psd] in *. subst c.
+  unfold set_sides, query; cbn [st_cplx st_nfft st_sides st_psd]. rewrite convert_none by exact Hk. split; reflexivity.
 Qed.
 End ConvertTheory.
